@@ -496,9 +496,9 @@ c17l = B('c17_threads_locked', 'c17_threads.cpp', 'tsan', defines=['-DSONIC_LOCK
 PROPS['C17'] = dict(
     title='Independent documents and shared read-only documents are free of data races',
     units=[
-        U(c17, 'prng', 500, 20000, wq=4, wt=6, label='c17-tsan', replay_reps=20, cap_s=dict(quick=45, thorough=900)),
-        U(c17, 'rc', 200, 5000, wq=2, wt=2, label='c17-tsan-rc', replay_reps=20, cap_s=dict(quick=45, thorough=900)),
-        U(c17l, 'prng', 300, 10000, wq=4, wt=6, label='c17-tsan-locked', replay_reps=20, cap_s=dict(quick=45, thorough=900)),
+        U(c17, 'prng', 500, 20000, wq=4, wt=6, label='c17-tsan', replay_reps=20, replay_timeout=120, cap_s=dict(quick=45, thorough=900)),
+        U(c17, 'rc', 200, 5000, wq=2, wt=2, label='c17-tsan-rc', replay_reps=20, replay_timeout=120, cap_s=dict(quick=45, thorough=900)),
+        U(c17l, 'prng', 300, 10000, wq=4, wt=6, label='c17-tsan-locked', replay_reps=20, replay_timeout=120, cap_s=dict(quick=45, thorough=900)),
     ],
     rule='cases: thread scripts for 2..8 threads, generated on the main thread and then executed 4x behind a start barrier under '
          'ThreadSanitizer. (A) every thread owns its documents: Parse of valid and mutated texts (pool and freeing allocator), '
